@@ -24,7 +24,8 @@ RULE = ("seeded operator programs interleaved with chunked delivery on a real in
         "non-trivial = at least two maintenance ops were applied (not skipped by their guard) on a state holding a "
         "non-None reading; distinct = distinct digests of (trace, snapshots)")
 
-OPS = ("calculate", "purge", "recalculate", "calc_index", "calc_index", "add", "readd", "remove")
+OPS = ("calculate", "purge", "recalculate", "calc_index", "calc_index", "add", "readd", "remove", "unknown_name",
+       "calc_range")
 
 
 def plan(seed, subbatch):
@@ -60,6 +61,8 @@ def plan(seed, subbatch):
         op = {"op": kind_op, "target": op_rng.choice((None, 0, 1, 2)) if kind_op not in ("remove", "readd") else op_rng.randint(0, 2)}
         if kind_op in ("purge", "recalculate") and op_rng.random() < 0.3:
             op["raw"] = True   # applied to the state as it is (e.g. right after add_indicator, before any calculate)
+        if kind_op == "calc_range":
+            op["pos"] = op_rng.random()
         if kind_op == "calc_index":
             op["pos"] = op_rng.choice((op_rng.random(), 0.999, 0.999))
             op["neg"] = op_rng.random() < 0.5
@@ -283,6 +286,36 @@ def execute(trace, ctx=None):
                     m.add(slot.spec, "object")   # warm restart of one member: identical configuration
                     m.calculate(None)
                     expect_same(before, "warm-restart-changes-readings", slot)
+                    applied += 1
+                elif kind == "unknown_name":
+                    # maintenance calls naming an indicator the Hexital does not hold: nothing may change
+                    if m.kind != "hexital":
+                        continue
+                    m.calculate(None)
+                    before = m.snapshot()
+                    hx = m.subject
+                    for fn in (hx.calculate, hx.purge, hx.recalculate, hx.remove_indicator):
+                        run.call(m.n_candles() * 6, fn, "no_such_indicator")
+                    expect_same(before, "unknown-name-call-changes-state", None)
+                    applied += 1
+                elif kind == "calc_range":
+                    # the two-argument form on a standalone indicator: recomputing a RANGE of indices that
+                    # already hold readings reproduces them
+                    if m.kind != "indicator":
+                        continue
+                    slot0 = m.live_slots()[0]
+                    n = len(slot0.ind.candles)
+                    if n < 3:
+                        continue
+                    m.calculate(None)
+                    hi = n - 1
+                    lo = max(0, hi - 1 - int(op.get("pos", 0.5) * 4))
+                    if not all(_index_guard(m, slot0, j) for j in (lo, hi)):
+                        run.stats["guard_skip:calc_range"] += 1
+                        continue
+                    before = m.snapshot()
+                    run.call(m.n_candles() * 6, m.subject.calculate_index, lo, hi + 1)
+                    expect_same(before, "calc-range-does-not-reproduce", slot0)
                     applied += 1
                 elif kind == "calc_index":
                     targets = [slot] if slot is not None else m.live_slots()
